@@ -107,7 +107,9 @@ leave it (arguments are non-negative everywhere they are used) -/
 structure Num (R : Type) where
   cast : Nat → R
   rnd : R → Nat
-  trunc : R → Nat
+  /-- Python's `int(n * s)` for an `int` `n` and a `float` `s`: the product is taken in float64
+  (rounded to the nearest double) and then truncated -/
+  mulTrunc : Nat → R → Nat
 
 /-- head configuration the targets are generated with -/
 structure Heads (R : Type) where
@@ -131,8 +133,11 @@ structure Cfg (R : Type) where
   cropH : Nat
   cropW : Nat
   anchor : Option Nat
-  /-- `get_max_instances(labels)` -/
+  /-- `get_max_instances(labels)` of the labels the torch dataset is built from -/
   maxInstances : Nat
+  /-- `max_instances` handed to the chunk functions when it is not that number (`get_bin_files.py`
+  uses the TRAIN labels' maximum for the validation chunks too); `none` = the same number -/
+  chunkMaxInst : Option Nat := none
   /-- does `generate_centroids` write through its argument (F-C11 present)? -/
   aliasing : Bool
 
@@ -192,7 +197,7 @@ def shape (N : Num R) (raw : Nat × Nat × Nat) : Img R → Nat × Nat × Nat
   | .rgb i => (3, (shape N raw i).2.1, (shape N raw i).2.2)
   | .sizematch mh mw i => ((shape N raw i).1, mh, mw)
   | .resize s i =>
-      ((shape N raw i).1, N.trunc (N.cast (shape N raw i).2.1 * s), N.trunc (N.cast (shape N raw i).2.2 * s))
+      ((shape N raw i).1, N.mulTrunc (shape N raw i).2.1 s, N.mulTrunc (shape N raw i).2.2 s)
   | .padStride m i =>
       ((shape N raw i).1, (shape N raw i).2.1 + padFor (shape N raw i).2.1 m,
         (shape N raw i).2.2 + padFor (shape N raw i).2.2 m)
@@ -334,6 +339,9 @@ def dsMaxW (t : Tree) (cfg : Cfg R) : Nat := if t.honourCfgMax then chunkMaxW cf
 def dsMaxInst (t : Tree) (cfg : Cfg R) : Nat :=
   if cfg.mt = .single ∧ t.singleNoPad = true then 1 else cfg.maxInstances
 
+/-- `max_instances` the chunk functions get -/
+def chunkMaxInstOf (cfg : Cfg R) : Nat := cfg.chunkMaxInst.getD cfg.maxInstances
+
 def q8If (b : Bool) (i : Img R) : Img R := if b then .quant8 i else i
 
 /-! ## framework (i): torch datasets, in-memory cache (`np = false`) and `.npz` chunks (`np = true`) -/
@@ -377,7 +385,7 @@ def torchCentered (N : Num R) (t : Tree) (np : Bool) (cfg : Cfg R) (fr : Frame R
 /-- `single_instance_data_chunks` (`max_instances = 1`) / `bottomup_data_chunks`, then
 `SingleInstance|BottomUpStreamingDataset.__getitem__` -/
 def streamPlain (N : Num R) (cfg : Cfg R) (fr : Frame R) : Sample R :=
-  let pl := processLf (if cfg.mt = .single then 1 else cfg.maxInstances) fr.insts
+  let pl := processLf (if cfg.mt = .single then 1 else chunkMaxInstOf cfg) fr.insts
   let e := effScale N fr (chunkMaxH cfg) (chunkMaxW cfg)
   { img := .padStride cfg.maxStride
       (.quant8 (applyResizer cfg.scale (base cfg.isRgb (chunkMaxH cfg) (chunkMaxW cfg)))),
@@ -386,7 +394,7 @@ def streamPlain (N : Num R) (cfg : Cfg R) (fr : Frame R) : Sample R :=
 
 /-- `centroid_data_chunks`, then `CentroidStreamingDataset.__getitem__` -/
 def streamCentroid (N : Num R) (cfg : Cfg R) (fr : Frame R) : Sample R :=
-  let pl := processLf cfg.maxInstances fr.insts
+  let pl := processLf (chunkMaxInstOf cfg) fr.insts
   let e := effScale N fr (chunkMaxH cfg) (chunkMaxW cfg)
   let insts := pl.1.map (scaleInst e)
   { img := .padStride cfg.maxStride
@@ -398,7 +406,7 @@ def streamCentroid (N : Num R) (cfg : Cfg R) (fr : Frame R) : Sample R :=
 /-- `centered_instance_data_chunks` (its `k`-th yield), then
 `CenteredInstanceStreamingDataset.__init__` (`crop_hw := int(crop_hw · scale)`) + `__getitem__` -/
 def streamCentered (N : Num R) (cfg : Cfg R) (fr : Frame R) (k : Nat) : Sample R :=
-  let pl := processLf cfg.maxInstances fr.insts
+  let pl := processLf (chunkMaxInstOf cfg) fr.insts
   let e := effScale N fr (chunkMaxH cfg) (chunkMaxW cfg)
   let insts := pl.1.map (scaleInst e)
   let inst := (((insts.map (writeBack cfg.aliasing cfg.anchor))[k]?).getD [])
@@ -408,7 +416,7 @@ def streamCentered (N : Num R) (cfg : Cfg R) (fr : Frame R) (k : Nat) : Sample R
   let c1' : Crop R :=
     { c1 with img := .quant8 (applyResizer cfg.scale c1.img),
               inst := ((applyResizerPts cfg.scale [c1.inst])[0]?).getD [] }
-  recrop N cfg.maxStride c1' (N.trunc (N.cast cfg.cropH * cfg.scale)) (N.trunc (N.cast cfg.cropW * cfg.scale))
+  recrop N cfg.maxStride c1' (N.mulTrunc cfg.cropH cfg.scale) (N.mulTrunc cfg.cropW cfg.scale)
     pl.2 4
 
 /-- the sample framework `fw` returns for frame `fr` (instance `k` of it for the centred-instance
@@ -542,6 +550,17 @@ def fnResize (s : R) (x : Img R × List (Inst R)) : Img R × List (Inst R) :=
 def dpResizer (s : R) (x : Img R × List (Inst R)) : Img R × List (Inst R) :=
   if s ≠ 1 then (.resize s x.1, x.2.map (scaleInst s)) else x
 
+/-- what a size-matching step does to a frame of `(h, w)`: resize to `plan.1`, then zero-pad to
+`(mh, mw)`; keypoints are multiplied by `plan.2`.  `none` = raises. -/
+abbrev SizePlan (R : Type) := Option ((Nat × Nat) × R)
+
+/-- `apply_sizematcher(image, max_height, max_width)` (aspect-preserving rescale, then padding) -/
+def fnSizeMatch (N : Num R) (h w mh mw : Nat) : SizePlan R := some (sizematchPlan N h w mh mw)
+/-- `SizeMatcher.__iter__` (legacy block used by every pipeline of `pipelines.py`): zero-pads only,
+leaves the keypoints alone, raises when the frame is larger than the maximum -/
+def dpSizeMatcher (h w mh mw : Nat) : SizePlan R :=
+  if mh < h ∨ mw < w then none else some ((h, w), 1)
+
 /-- `apply_pad_to_stride` -/
 def fnPadToStride (m : Nat) (i : Img R) : Img R := .padStride m i
 /-- `PadToStride.__iter__` -/
@@ -671,6 +690,29 @@ def roundHalfEven (q : Rat) : Nat :=
   let up := if r < 1/2 then false else if (1/2 : Rat) < r then true else f % 2 ≠ 0
   (if up then f + 1 else f).toNat
 
-def numRat : Num Rat := { cast := fun n => (n : Rat), rnd := roundHalfEven, trunc := fun q => q.floor.toNat }
+/-- `2^e` -/
+def pow2 (e : Int) : Rat :=
+  if 0 ≤ e then ((2 ^ e.toNat : Nat) : Rat) else 1 / ((2 ^ (-e).toNat : Nat) : Rat)
+
+/-- Round a positive rational to the nearest IEEE-754 binary64 value, ties to even (normal range and
+gradual underflow; overflow not modelled).  Doubles are dyadic rationals, so `Rat` carries the
+result exactly.  (Same construction as `roundF64` in `Model/Grouping.lean`, copied so that this file
+does not depend on another property's model.) -/
+def roundF64 (x : Rat) : Rat :=
+  if x ≤ 0 then x
+  else
+    let a : Int := x.num.natAbs.log2
+    let b : Int := x.den.log2
+    let e0 : Int := a - b - 52
+    let e1 := if x / pow2 e0 < pow2 52 then e0 - 1 else e0
+    let e2 := if pow2 53 ≤ x / pow2 e1 then e1 + 1 else e1
+    let e := if e2 < -1074 then -1074 else e2
+    (roundHalfEven (x / pow2 e) : Rat) * pow2 e
+
+/-- the driver's environment: `s` arrives as the exact rational value of the Python float, `n * s`
+is rounded to binary64 as CPython does, then truncated -/
+def numRat : Num Rat :=
+  { cast := fun n => (n : Rat), rnd := roundHalfEven,
+    mulTrunc := fun n s => (roundF64 ((n : Rat) * s)).floor.toNat }
 
 end SleapVerif.Pipelines
